@@ -1,7 +1,14 @@
 #![allow(dead_code)]
 mod c15;
 mod coq;
+mod obs;
+mod reggen;
+mod regprint;
 mod rng;
+mod sets;
+mod tg;
+mod tgprops;
+mod tok;
 mod util;
 
 use std::path::PathBuf;
@@ -33,9 +40,18 @@ fn main() {
         }
     }
     // silence panic messages of the implementation under test (they are observed, not printed)
-    std::panic::set_hook(Box::new(|_| {}));
+    // (panics whose message starts with `harness:` are bugs of the harness itself and are shown)
+    std::panic::set_hook(Box::new(|info| {
+        let msg = info.to_string();
+        if msg.contains("harness") || std::env::var("VH_DEBUG").is_ok() {
+            eprintln!("{msg}");
+        }
+    }));
     let meta = match prop {
         "C15" => c15::generate(tier, seed, &out, nshards, replay.as_deref()),
+        "TG" | "C01" | "C02" | "C05" | "C06" | "C07" | "C08" | "C09" | "C10" | "C17" | "C18" => {
+            tg::generate(prop, tier, seed, &out, nshards, replay.as_deref())
+        }
         _ => {
             eprintln!("unknown property {prop}");
             std::process::exit(2);
